@@ -480,6 +480,10 @@ def main():
             'lemmas': {n: {'paths': r.paths, 'secs': round(r.secs, 2), 'unsupported': r.unsupported} for n, r in lemma_reports.items()},
             'obligation_instances': sum(len(v) for v in agg.values()),
             'by_backend': by_backend, 'solver_seconds': round(solver_time, 2),
+            'slowest_discharged': sorted(((o['secs'], o['name'][:100], o['backend']) for v in agg.values() for o in v
+                                          if o['status'] == 'discharged'), reverse=True)[:5],
+            'solver_budget': 'per obligation %d ms wall clock; an obligation whose only failure reason is the time budget is '
+                             're-tried once with 4x the budget before it counts as failed' % ctx.timeout_ms,
             'known_finding_obligations': known_obl,
             'bounded': bounded, 'cross_checks': cross_checks, 'undecided': [u[0] for u in undecided],
             'failed_obligations': sorted(failed)[:50],
